@@ -733,7 +733,8 @@ def random_bound(rng, world, kind_hint):
     return dict(set=False, x=0), -1, 'unset'
 
 
-SLABS_SHARE = 0.12
+SLABS_SHARE = dict(quick=0.12, thorough=0.05)     # share of the random events that are slab lists
+SLABS_MAX_N = 40
 
 
 def random_par(rng, kind):
@@ -758,7 +759,7 @@ def random_deck(rng, world, cen2):
     return p, 'inside'
 
 
-def random_event(world, grid, esub, eid, run_model, mix=False, long_lived=False):
+def random_event(world, grid, esub, eid, run_model, mix=False, long_lived=False, share=0.12):
     """One random deck / haze event on a built world, fully determined by the sub-seed esub.
     long_lived: the contribution object of that kind is the one the world has used before (settings
     changed through its setters) and, on the standard grid, the pressure range of the model may be
@@ -774,9 +775,9 @@ def random_event(world, grid, esub, eid, run_model, mix=False, long_lived=False)
     n = world.n
     lev_pos = [lpos(p) for p in world.levels]
     cen2 = [2 * lpos(p) for p in world.layers]
-    recipe = dict(random=True, n=n, grid=grid, esub=esub, run_model=run_model, mix=mix)
+    recipe = dict(random=True, n=n, grid=grid, esub=esub, run_model=run_model, mix=mix, share=share)
     hist = ':after-history' if long_lived else ''
-    if run_model and rng.random() < SLABS_SHARE:
+    if run_model and n <= SLABS_MAX_N and rng.random() < share:
         # several clouds / hazes of any kinds in the same model, each with its own random range
         specs = []
         for _ in range(rng.choice([2, 2, 3])):
@@ -814,7 +815,7 @@ def random_event(world, grid, esub, eid, run_model, mix=False, long_lived=False)
     return e, cls, recipe, info
 
 
-def long_sequence(X, wsub, n, count):
+def long_sequence(X, wsub, n, count, share=0.12):
     """The events of ONE long-lived world: the same model and the same three contribution objects through
     `count` events; everything is determined by wsub (so that replay can regenerate event j)."""
     world, grid = random_world(X, random.Random(wsub), n)
@@ -824,7 +825,7 @@ def long_sequence(X, wsub, n, count):
     out = []
     for j in range(count):
         out.append(random_event(world, grid, seq.getrandbits(48), 'L%d:%d' % (wsub % 100000, j), n <= 40,
-                                mix=(j % 4 == 1 and n <= 40), long_lived=True))
+                                mix=(j % 4 == 1 and n <= 40), long_lived=True, share=share))
     return world, grid, out
 
 
@@ -842,6 +843,7 @@ def add_event(events, meta, e, cls, vec, info):
 
 
 def run_random(ctx, X, rng, nworlds, per_world, model_max_n, pre=None):
+    share = SLABS_SHARE[ctx.tier]
     events, meta, post = pre if pre is not None else ([], {}, [])
     nw = skipped = 0
     sizes = [2, 3, 5, 100] + [rng.randint(2, 100) for _ in range(nworlds - 4)]
@@ -859,7 +861,7 @@ def run_random(ctx, X, rng, nworlds, per_world, model_max_n, pre=None):
         for j in range(per_world):
             eid = 'B%d:%d' % (nw, j)
             e, cls, recipe, info = random_event(world, grid, rng.getrandbits(48), eid, n <= model_max_n,
-                                                mix=(j % 8 == 3 and n <= model_max_n))
+                                                mix=(j % 8 == 3 and n <= model_max_n), share=share)
             add_event(events, meta, e, cls, dict(recipe, wsub=wsub), info)
     if nw < 5:
         raise Machinery('too few random grids')
@@ -867,7 +869,7 @@ def run_random(ctx, X, rng, nworlds, per_world, model_max_n, pre=None):
     nlong = 0
     for n in [2, 7, 30] + [rng.randint(2, 60) for _ in range(max(3, nworlds // 4) - 3)]:
         wsub = rng.getrandbits(48)
-        world, grid, seq = long_sequence(X, wsub, n, per_world)
+        world, grid, seq = long_sequence(X, wsub, n, per_world, share)
         if world is None:
             continue
         nlong += 1
@@ -1040,7 +1042,7 @@ def run(ctx):
     ctx.bounds = dict(tier=ctx.tier,
                       exhaustive='<=%d layers, spacings {1,2} dex in any order, bounds/deck on every half-dex position from one dex above the top to one dex below the surface and "unset", both orders; clear transmittances in {0,1/2,1}' % (3 if q else 5),
                       vectors='every exported (grid, bounds/deck) of the %d-layer export config through prepare() and model()' % (3 if q else 4) + ' on explicit-level grids and, for uniform grids, SimplePressureProfile',
-                      slabs='MC_CloudsSlabs: 2 slabs of any kind on grids of <= 2 layers exhaustively; simulated lists of 2..3 slabs on <= 3 layers replayed on real objects; random lists of 2..3 slabs on random grids of <= %d layers' % (40 if q else 100),
+                      slabs='MC_CloudsSlabs: 2 slabs of any kind on grids of <= 2 layers exhaustively; simulated lists of 2..3 slabs on <= 3 layers replayed on real objects; random lists of 2..3 slabs on random grids of <= %d layers' % SLABS_MAX_N,
                       traces='random grids 2..100 layers (simple / array / explicit levels), random bounds of 6 classes, random magnitudes, Lee radius 0.01..3 um, Q 1..80')
     ctx.assumptions = ['log10 of pressures is evaluated by the harness (positions round(1e6 log10 P)); random bounds are either float-identical to an exposed level / layer pressure or at least 2e-4 dex away from all of them',
                        'Lee Qext law evaluated by the harness from the documented formula (uninterpreted positive table for the spec)',
@@ -1070,7 +1072,7 @@ def run(ctx):
         vecs = keep + rest[:1500]
     nev = run_vectors(ctx, vecs, X, rng)
     ctx.note('binding A: %d exported vectors, %d real runs judged' % (len(vecs), nev))
-    pre = run_slab_vectors(ctx, X, 100 if q else 1500)
+    pre = run_slab_vectors(ctx, X, 100 if q else 500)
     run_random(ctx, X, rng, 24 if q else 400, 30 if q else 60, 40 if q else 100, pre=pre)
     ctx.note('mix events: %(mix_events)d; tangent layers opaque in the line cores AND transparent in the windows with haze present: '
              '%(mixed_layers)d; layers under the tau>10 licence at every wavenumber: %(licensed_layers)d' % STATS)
@@ -1117,7 +1119,7 @@ def replay(ctx, violations):
                 e = se
             e = dict(e, id=eid)
         elif vec.get('random') and 'long' in vec:
-            world, grid, seq = long_sequence(X, vec['wsub'], vec['n'], vec['long'] + 1)
+            world, grid, seq = long_sequence(X, vec['wsub'], vec['n'], vec['long'] + 1, vec.get('share', 0.12))
             e, cls, recipe, info = seq[-1]
             if want_mix:
                 e = info.get('_mix')
@@ -1131,7 +1133,8 @@ def replay(ctx, violations):
             if key not in worlds:
                 worlds[key] = random_world(X, random.Random(vec['wsub']), vec['n'])
             world, grid = worlds[key]
-            e, cls, recipe, info = random_event(world, grid, vec['esub'], eid, vec['run_model'], mix=vec.get('mix', False))
+            e, cls, recipe, info = random_event(world, grid, vec['esub'], eid, vec['run_model'], mix=vec.get('mix', False),
+                                                share=vec.get('share', 0.12))
             if want_mix:
                 e = dict(info['_mix'], id=eid)
             if vec.get('sub'):
